@@ -24,9 +24,18 @@ builder, not from pkgcore's parse):
      nothing but regular files directly in distdir is touched; nothing is created.
   Exceptions from pclean for these inputs are violations (`crash:*`).
 
-Dropped from DESIGN: `--pkgsets`, `--exclude-file`, path targets and `-r`-less repo discovery
-(`get_virtual_repos(..., False)` drops SimpleTree repos, so the repository is always handed in as `namespace.repo`).
+Generation: (1) a deterministic grid (task `grid`, always run to the end, independent of the wall-clock guard):
+look-alike package pairs (foo/foo-bar, py/py-x) x plain or shared distfiles x every subset of -I/-E/-f x
+{no target, cat/pn, pn, =cat/pn-ver} x -x {none, look-alike, other} x -X file {none, look-alike, other}, with an
+installed look-alike whose version is gone from the tree and an installed package in another category that
+shares a distfile; (2) hypothesis worlds (task `hyp`; the first chunk of every task ignores the guard so that a
+run on an overloaded machine is never vacuous).
+
+Dropped from DESIGN: `--pkgsets`, path targets and `-r`-less repo discovery (`get_virtual_repos(..., False)`
+drops SimpleTree repos, so the repository is always handed in as `namespace.repo`).  `--exclude-file` is a
+StringIO of newline-separated patterns without a trailing newline.
 """
+import io
 import os
 import re
 import sys
@@ -201,17 +210,31 @@ def uniq_pkgs(pkgs):
     return out
 
 
+def _distdir(ctx):
+    """one scratch distdir per task, emptied between cases (cheaper than a new tree per case)"""
+    d = getattr(ctx, "_c46_dist", None)
+    if d is None:
+        d = ctx._c46_dist = ctx.fresh_dir("dist")
+    for name in os.listdir(d):
+        p = os.path.join(d, name)
+        if name != "subdir":
+            os.unlink(p)
+    sub = os.path.join(d, "subdir")
+    # one non-file entry that must never be touched
+    if not os.path.exists(os.path.join(sub, "foo-1.tar.gz")):
+        os.makedirs(sub, exist_ok=True)
+        with open(os.path.join(sub, "foo-1.tar.gz"), "w") as f:
+            f.write("x")
+    return d
+
+
 def run_case(ctx, case):
     from pkgcore.scripts import pclean
 
     repo_pkgs = uniq_pkgs(case["repo"])
     inst_pkgs = uniq_pkgs(case["installed"])
     opts = case["opts"]
-    dist = ctx.fresh_dir("dist")
-    # one non-file entry that must never be touched
-    os.mkdir(os.path.join(dist, "subdir"))
-    with open(os.path.join(dist, "subdir", "foo-1.tar.gz"), "w") as f:
-        f.write("x")
+    dist = _distdir(ctx)
     files = {}
     for fn, size, mt in case["files"]:
         if fn in files:
@@ -243,8 +266,10 @@ def run_case(ctx, case):
         for p in repo_pkgs:
             if "fetch" in p.get("restrict", "").split():
                 mark(names_of(p), "fetch-restricted")
+    xfile = opts.get("exclude_file")
+    all_excl = list(opts["excludes"]) + list(xfile or [])
     for p in repo_pkgs:
-        if any(expr_matches(x, p["cat"], p["pn"], p["ver"]) for x in opts["excludes"]):
+        if any(expr_matches(x, p["cat"], p["pn"], p["ver"]) for x in all_excl):
             mark(names_of(p), "excluded-pattern")
     targeted = [p for p in repo_pkgs if any(expr_matches(t, p["cat"], p["pn"], p["ver"]) for t in opts["targets"])]
     stems = set()
@@ -264,7 +289,7 @@ def run_case(ctx, case):
         verbosity=0,
         prog="pclean dist",
         excludes=list(opts["excludes"]) if opts["excludes"] else None,
-        exclude_file=None,
+        exclude_file=None if xfile is None else io.StringIO("\n".join(xfile)),
         pkgsets=None,
         modified=None if opts["modified"] is None else BASE_T + opts["modified"],
         size=opts["size"],
@@ -307,6 +332,15 @@ def run_case(ctx, case):
         cl.append("targets_match" if targeted else "targets_match_nothing")
     if opts["excludes"]:
         cl.append("opt:excludes")
+    if xfile is not None:
+        cl.append("opt:exclude_file")
+        if opts["excludes"]:
+            cl.append("opt:excludes+exclude_file")
+    for k in ("installed", "exists", "fetch_restricted"):
+        if opts[k] and opts["targets"]:
+            cl.append(f"opt:{k}+targets")
+        if opts[k] and all_excl:
+            cl.append(f"opt:{k}+excludes")
     if opts["modified"] is not None:
         cl.append("opt:modified")
     if opts["size"] is not None:
@@ -351,9 +385,6 @@ def run_case(ctx, case):
         ctx.violation("removed-non-distfile-entry", case, "file inside a subdirectory of distdir was removed")
     if os.getcwd() != cwd:
         os.chdir(cwd)
-    import shutil
-
-    shutil.rmtree(dist, ignore_errors=True)
 
 
 # ---- generation ------------------------------------------------------------------------
@@ -417,9 +448,12 @@ def world(draw):
     targets = [expr() for _ in range(ntarg)]
     nex = draw(st.sampled_from([0, 0, 0, 1, 2]))
     excludes = [expr() for _ in range(nex)]
+    nxf = draw(st.sampled_from([None, None, None, 1, 1, 2]))
+    xfile = None if nxf is None else [expr() for _ in range(nxf)]
     opts = {
         "targets": targets,
         "excludes": excludes,
+        "exclude_file": xfile,
         "installed": draw(st.sampled_from([True, False])),
         "exists": draw(st.sampled_from([True, False])),
         "fetch_restricted": draw(st.sampled_from([True, False])),
@@ -429,10 +463,60 @@ def world(draw):
     return {"repo": repo, "installed": inst, "files": files, "opts": opts, "via_remove": draw(st.booleans())}
 
 
+GRID_PAIRS = [("foo", "foo-bar"), ("py", "py-x")]
+GRID_SLICES = 8
+
+
+def grid_cases():
+    """deterministic look-alike scenarios: package A is what targets name, B = A-something is the look-alike whose
+    distfiles pclean's name heuristic also selects; B-0 is installed but gone from the tree; app-x/zed is installed
+    only and (style `shared`) needs a distfile that A also lists."""
+    for a, b in GRID_PAIRS:
+        for style in ("tgz", "shared"):
+            repo = [
+                {"cat": "cat", "pn": a, "ver": "1", "style": style, "restrict": ""},
+                {"cat": "cat", "pn": b, "ver": "1", "style": "tgz", "restrict": "fetch"},
+                {"cat": "cat", "pn": "bar", "ver": "2", "style": "tgz", "restrict": ""},
+            ]
+            inst = [
+                {"cat": "cat", "pn": b, "ver": "0.9", "style": "tgz"},
+                {"cat": "cat", "pn": a, "ver": "1", "style": style},
+                {"cat": "app-x", "pn": "zed", "ver": "1", "style": "shared"},
+            ]
+            names = []
+            for p in repo + inst:
+                names += distfile_names(p["pn"], p["ver"], p["style"])[1]
+            names += [f"{a}-0.1.tar.gz", f"{b}-0.1.tar.gz", "junk.txt"]
+            files = []
+            for n in names:
+                if n not in [f[0] for f in files]:
+                    files.append([n, 10, 0])
+            for mask in range(8):
+                for targets in ([], [f"cat/{a}"], [a], [f"=cat/{a}-1"]):
+                    for xs in ([], [f"cat/{b}"], ["cat/bar"]):
+                        for xf in (None, [f"cat/{b}"], ["cat/bar"]):
+                            yield {
+                                "repo": repo,
+                                "installed": inst,
+                                "files": files,
+                                "opts": {
+                                    "targets": targets,
+                                    "excludes": xs,
+                                    "exclude_file": xf,
+                                    "installed": bool(mask & 1),
+                                    "exists": bool(mask & 2),
+                                    "fetch_restricted": bool(mask & 4),
+                                    "modified": None,
+                                    "size": None,
+                                },
+                                "via_remove": False,
+                            }
+
+
 def plan(tier, seed):
-    # warm import: forked task workers inherit it. pkgcore.ebuild.processor installs SIGTERM/SIGINT handlers at
-    # import time (SIGTERM -> SystemExit); idle pool workers inheriting them survive the runner's
-    # Pool.terminate() and the run never ends, so the handlers of the runner process are put back.
+    # warm import: forked task workers inherit it (costs a few seconds of the guard once instead of once per task;
+    # the grid and the first hypothesis chunk of every task do not depend on the guard). pkgcore.ebuild.processor
+    # installs SIGTERM/SIGINT handlers at import time; the handlers of the runner process are put back.
     import signal
 
     saved = {sig: signal.getsignal(sig) for sig in (signal.SIGTERM, signal.SIGINT)}
@@ -442,15 +526,39 @@ def plan(tier, seed):
     for sig, h in saved.items():
         signal.signal(sig, h)
 
+    tasks = [{"task": "grid", "slice": i, "nslices": GRID_SLICES} for i in range(GRID_SLICES)]
     if tier == "quick":
-        return [{"task": "hyp", "examples": 450} for _ in range(12)]
-    return [{"task": "hyp", "examples": 9000} for _ in range(32)]
+        tasks += [{"task": "hyp", "examples": 450} for _ in range(8)]
+    else:
+        tasks += [{"task": "hyp", "examples": 9000} for _ in range(32)]
+    return tasks
+
+
+FIRST_CHUNK = 30
 
 
 def run_task(ctx, task, **kw):
-    if task != "hyp":
+    if task == "grid":
+        n = 0
+        for i, case in enumerate(grid_cases()):
+            if i % kw["nslices"] == kw["slice"]:
+                if n % 2:
+                    case = dict(case, via_remove=True)
+                run_case(ctx, case)
+                n += 1
+        ctx.note("grid_cases", n)
+        ctx.note("grid_complete", True)
+    elif task == "hyp":
+        # the first small chunk always runs: the wall-clock guard only bounds what comes after it
+        deadline, ctx.deadline = ctx.deadline, None
+        try:
+            first = min(FIRST_CHUNK, kw["examples"])
+            core.hyp_run(ctx, world(), lambda c: run_case(ctx, c), first, chunk=first, seed_salt=7)
+        finally:
+            ctx.deadline = deadline
+        core.hyp_run(ctx, world(), lambda c: run_case(ctx, c), kw["examples"] - first, chunk=50)
+    else:
         raise core.HarnessError(f"unknown task {task}")
-    core.hyp_run(ctx, world(), lambda c: run_case(ctx, c), kw["examples"], chunk=50)
 
 
 def replay(ctx, case):
@@ -488,6 +596,10 @@ def shrink_case(ctx, bucket, case):
                 c = copy.deepcopy(cur)
                 del c["opts"][key][i]
                 cands.append(c)
+        if cur["opts"].get("exclude_file") is not None:
+            c = copy.deepcopy(cur)
+            c["opts"]["exclude_file"] = None
+            cands.append(c)
         for key in ("installed", "exists", "fetch_restricted"):
             if cur["opts"][key]:
                 c = copy.deepcopy(cur)
